@@ -405,6 +405,29 @@ def run_cell(name, params, plan, seed=7, n_draws=4):
                     "%d uniforms, the new stream from %d to %d); a never-copied twin draws %s"
                     % (name, params, "the copy" if repoint_copy else "the original", a,
                        s0.calls, used_new, snew.calls, b)), info
+    # deep copies and pickle round trips on the library's own plain stream class:
+    # copy and original are two independent continuations of one history
+    import pickle
+    for how in ("deepcopy", "pickle"):
+        try:
+            d0 = build(name, params, MersenneTwister(seed))
+            dt = build(name, params, MersenneTwister(seed))
+            d0.draw()
+            dt.draw()
+        except Exception:
+            break               # (parameter regimes that cannot draw are judged above)
+        dc = copy.deepcopy(d0) if how == "deepcopy" else pickle.loads(pickle.dumps(d0))
+        try:
+            c_vals = [dc.draw() for _ in range(3)]       # the clone draws first ...
+            o_vals = [d0.draw() for _ in range(3)]       # ... then the original
+            t_vals = [dt.draw() for _ in range(3)]
+        except Exception:
+            break
+        if o_vals != t_vals or c_vals != t_vals:
+            return ("instances-interfere", "Dist%s(%s) on a plain MersenneTwister(%d): after "
+                    "one draw a %s was taken; the clone then drew %s, the original %s; a "
+                    "never-copied twin draws %s (both must continue like the twin)"
+                    % (name, params, seed, how, c_vals, o_vals, t_vals)), info
     return None, info
 
 
